@@ -55,6 +55,12 @@ def gen_cases(rng, tier: str) -> list[dict]:
             c["prior"] = prior[:]          # points the same object was evaluated at before
             prior.append(c["p"])
             cases.append(c)
+    for origin, pairs in (("near-special", common.near_special(rng, common.sizes(tier, 400, 4000))),
+                          ("compensating-magnitudes", common.compensating_products(rng, common.sizes(tier, 150, 1500)))):
+        for e, pt in pairs:
+            c = common.make_eval_case(origin, e, pt)
+            c["entry"] = "number" if len(e._variable_names) <= 1 and rng.random() < 0.3 else "point"
+            cases.append(c)
     return cases + k3_points(tier)
 
 
